@@ -25,7 +25,7 @@ ASSUMPTIONS = [
     "stuffing-off + abort-on suffix frames stay inside C02's domain (C16 does not re-open what C02 excludes)",
 ]
 WATCHDOG_S = {"quick": 900, "thorough": 7200}
-N_CASES = {"quick": 110, "thorough": 6000}
+N_CASES = {"quick": 260, "thorough": 6000}
 
 
 def plan(tier: str, seed: int) -> list[dict]:
